@@ -3,6 +3,8 @@
 import json, os, shutil, subprocess, sys
 prop, which, slug, needs = sys.argv[1:5]
 src = "/tmp/wt/%s-out" % prop
+if prop.startswith("R2"):
+    prop = prop[2:]
 patch = os.path.join(src, "%s.patch" % which)
 demo = os.path.join(src, "%s_demo.rs" % which)
 r = subprocess.run(["/verif/tools/vet_seed.sh", patch, demo], stdout=subprocess.PIPE, stderr=subprocess.STDOUT, text=True)
